@@ -2311,6 +2311,14 @@ func (f *fragment) importValue(columnIDs []uint64, values []int64, bitDepth uint
 		delete(f.checksums, int(uint64(i)/HashBlockSize))
 	}
 
+	// The values above went straight to storage and become durable with the
+	// snapshot awaited below. Waiting releases the lock: writes that get in
+	// meanwhile must be logged again, or they are acknowledged with nothing
+	// on disk until that snapshot happens.
+	if f.file != nil {
+		f.storage.OpWriter = f.file
+	}
+
 	// We don't actually care, except we want our stats to be accurate.
 	f.incrementOpN(totalChanges)
 
